@@ -5,6 +5,7 @@ from vlib.engine import Prop, Failure, run_side
 
 WRAP = ["-Wl,--wrap=pthread_mutex_lock", "-Wl,--wrap=pthread_mutex_unlock", "-Wl,--wrap=pthread_cond_wait",
         "-Wl,--wrap=pthread_cond_signal", "-Wl,--wrap=pthread_cond_broadcast",
+        "-Wl,--wrap=fread",              # the loader's fread into a chunk is logged as an access to that chunk (ownership check)
         "-Wl,--wrap=esl_sqio_Read"]      # records reaching esl_dsqdata_Write get an accession and a taxonomy id
 
 
@@ -197,7 +198,8 @@ class C12(Prop):
             abc, maxseq, maxpacket, unpackers, consumers, seed, pert, hold, lst(names), lst(descs), lst(seqs))
         if raw:      # database written by the harness itself: accessions and taxonomy ids, every residue code of the alphabet
             accs = [("" if r.random() < 0.3 else "".join(r.choice("ABCXYZ0123456789._") for _ in range(r.randrange(1, 12)))).encode() for _ in seqs]
-            tax = [r.choice([-1, 1, 9606, 2**31 - 1, r.randrange(1, 1 << 31)]) for _ in seqs]
+            # taxonomy ids with high bytes in every position (a byte >= 0x80 must survive the 4-byte store / memcpy back: seeded change C12-c)
+            tax = [r.choice([-1, 1, 9606, 2**31 - 1, 0x80, 0xff00, 0x00800000, 0x12345680, -0x80000000, -2, 0x7f80ff01, r.randrange(1, 1 << 31), r.randrange(-2**31, 2**31)]) for _ in seqs]
             op += " writer=raw accs=%s taxids=%s" % (lst(accs), ",".join(map(str, tax)) if tax else "-")
         return {"name": name, "ops": [op]}
 
@@ -342,7 +344,7 @@ class C12(Prop):
             U_ = rng.randrange(1, 5)
             if rng.random() < 0.12:     # the library's own defaults (hook value 0): 4096 sequences / 262144 packets per chunk, 4 unpackers
                 maxseq, maxpacket, U_ = rng.choice([(0, 0, 0), (0, maxpacket, U_), (maxseq, 0, 0), (0, 0, U_)])
-            out.append(self.dsq_case("dsqrt%d" % c, "amino" if amino else rng.choice(["dna", "dna", "rna"]), seqs, maxseq, maxpacket, U_, rng.randrange(1, 5),
+            out.append(self.dsq_case("dsqrt%d" % c, "amino" if amino else rng.choice(["dna", "dna", "rna"]), seqs, maxseq, maxpacket, U_, rng.choice([1, 2, 3, 4, rng.randrange(1, 9)]),
                                      rng.randrange(1, 1 << 30), rng.choice([0, 20, 50, 80]), rng, raw=raw))
             stats["dsqrt"] += 1; stats["dsqrt_seqs"] += nseq
         # --- structured databases (every run, every seed): the shapes in which the loader's index carry-over matters
@@ -394,6 +396,50 @@ class C12(Prop):
                                 raw=rng.random() < 0.5)
             cse["ops"] = [re.sub(r"hold=\d+", "hold=13", cse["ops"][0])]
             out.append(cse); stats["dsqrt"] += 1; stats["dsqrt_seqs"] += len(seqs)
+        # --- round-4 shapes (every run, every seed): the corners of "every chunk-size setting, every number of consumer threads"
+        def npk(d, amino): return len(pack5(d) if amino else pack2(d))
+        def small(amino, raw, lmax=40): return [rng.randrange(20 if amino else 4) for _ in range(rng.randrange(0, lmax))] if rng.random() < 0.8 else mixed_dna(rng.randrange(0, lmax), raw) if not amino else []
+        for C_ in range(1, 9):
+            # (a) more consumers than chunks: nconsumers = 1..8, one sequence per chunk (chunk_maxseq = 1), fewer chunks than consumers
+            #     (most consumers get EOF on their first Read; with 0 chunks - the empty database - all of them do)
+            amino = rng.random() < 0.5; raw = True
+            nseq = rng.randrange(0, C_)
+            seqs = [small(amino, raw) for _ in range(nseq)]
+            mp = max([npk(d, amino) for d in seqs] + [1])
+            out.append(self.dsq_case("dsq-consumers-gt-chunks-%d" % C_, "amino" if amino else "dna", seqs, 1, rng.choice([mp, mp, mp + 1, 50]), rng.randrange(1, 5), C_,
+                                     rng.randrange(1, 1 << 30), rng.choice([0, 30, 70]), rng, raw=raw))
+            stats["dsqrt"] += 1; stats["dsqrt_seqs"] += nseq
+            # (b) nconsumers = 1..8 kept busy: many one-sequence chunks, chunk_maxpacket at its minimum (= the packets of the longest sequence)
+            amino = rng.random() < 0.5; raw = rng.random() < 0.5
+            nseq = rng.randrange(12, 30)
+            seqs = [small(amino, raw, 60) for _ in range(nseq)]
+            mp = max(npk(d, amino) for d in seqs)
+            out.append(self.dsq_case("dsq-consumers-%d-minpacket" % C_, "amino" if amino else "dna", seqs, rng.choice([1, 1, 2]), mp, rng.randrange(1, 5), C_,
+                                     rng.randrange(1, 1 << 30), rng.choice([0, 40, 80]), rng, raw=raw))
+            stats["dsqrt"] += 1; stats["dsqrt_seqs"] += nseq
+        for rep in range(3 if quick else 12):
+            # (c) one giant sequence spanning many packets among small ones; chunk_maxpacket exactly its packet count, so it fills a chunk alone
+            amino = rng.random() < 0.5; raw = rng.random() < 0.5
+            L = rng.choice([2000, 3001, rng.randrange(1500, 5000)]) if quick else rng.choice([20000, 19999, rng.randrange(5000, 20001)])
+            giant = [rng.randrange(20) for _ in range(L)] if amino else mixed_dna(L, raw)
+            pre = [small(amino, raw) for _ in range(rng.randrange(0, 4))]; post = [small(amino, raw) for _ in range(rng.randrange(0, 4))]
+            seqs = pre + [giant] + post
+            out.append(self.dsq_case("dsq-giant-%d" % rep, "amino" if amino else "dna", seqs, rng.choice([1, 2, 3, 4096]), npk(giant, amino), rng.randrange(1, 5), rng.randrange(1, 9),
+                                     rng.randrange(1, 1 << 30), rng.choice([0, 30]), rng, raw=raw))
+            stats["dsqrt"] += 1; stats["dsqrt_seqs"] += len(seqs)
+            # (d) the empty database, every unpacker count, many consumers
+            out.append(self.dsq_case("dsq-empty-%d" % rep, rng.choice(["amino", "dna", "rna"]), [], rng.choice([0, 1, 3]), rng.choice([0, 1, 2, 9]), rep + 1, rng.randrange(1, 9),
+                                     rng.randrange(1, 1 << 30), rng.choice([0, 50]), rng, raw=True))
+            stats["dsqrt"] += 1
+            # (e) tail carry-over with chunk_maxpacket at its minimum (seeded change C12-a): the whole index is read by the first fread
+            #     (chunk_maxseq >= nseq), every later chunk consists of carried-over records only, each chunk limited by the packet budget
+            amino = rng.random() < 0.5; raw = rng.random() < 0.5
+            nseq = rng.randrange(4, 25)
+            seqs = [small(amino, raw, rng.choice([30, 90, 200])) for _ in range(nseq)]
+            mp = max(npk(d, amino) for d in seqs)
+            out.append(self.dsq_case("dsq-tail-minpacket-%d" % rep, "amino" if amino else "dna", seqs, rng.choice([nseq, nseq + 1, 4096]), rng.choice([mp, mp, mp + 1, 2 * mp]),
+                                     rng.randrange(1, 5), rng.randrange(1, 9), rng.randrange(1, 1 << 30), rng.choice([0, 30, 70]), rng, raw=raw))
+            stats["dsqrt"] += 1; stats["dsqrt_seqs"] += nseq
         if not quick:
             # the upper end of the quantifier: thousands of sequences, sequences of 20000 residues, default-sized chunk limits
             for c, (nseq, maxlen, maxseq, maxpacket) in enumerate([(5000, 40, 64, 300), (3000, 60, 4096, 2000), (40, 20000, 7, 3400), (12, 20000, 4096, 262144 // 8)]):
@@ -612,9 +658,9 @@ class C12(Prop):
                 r = kv(l)
                 nseq = 0 if a["dsq"] == "-" else a["dsq"].count(",") + 1
                 unx = lambda x: list(bytes.fromhex(x[1:]))
-                if not l.startswith("ok ") or r.get("dup") != "0" or r.get("miss") != "0" or r.get("bad") != "-1" or r.get("oob") != "0" or r.get("err") != "0" or r.get("lockerr") != "0" or r.get("leak") != "0" \
+                if not l.startswith("ok ") or r.get("dup") != "0" or r.get("miss") != "0" or r.get("bad") != "-1" or r.get("oob") != "0" or r.get("err") != "0" or r.get("lockerr") != "0" or r.get("ownerr", "0") != "0" or r.get("leak") != "0" \
                         or r.get("eofs") != a["consumers"] or r.get("nseq") != str(nseq):
-                    return Failure("monitor", "read-back differs from what was written (dup/miss/bad record, EOF not delivered to every consumer, lock misuse, leaked chunk): %r" % l[:300])
+                    return Failure("monitor", "read-back differs from what was written (dup/miss/bad record, EOF not delivered to every consumer, lock misuse, a parked / consumer-held chunk written to by somebody else, leaked chunk): %r" % l[:300])
                 amino = a["abc"] == "amino"
                 P = [len((pack5 if amino else pack2)(unx(x))) for x in (a["dsq"].split(",") if a["dsq"] != "-" else [])]
                 maxseq, maxpacket = int(a["maxseq"]) or 4096, int(a["maxpacket"]) or 262144      # 0 = the library's defaults
